@@ -177,8 +177,8 @@ pub fn step(kind: BoxedStrategy<OpKind>, max_faults: usize, drops: u32) -> impl 
 }
 
 pub fn teardown() -> impl Strategy<Value = Teardown> {
-    (proptest::collection::vec(any::<u16>(), 1..24), proptest::collection::vec(proptest::bool::weighted(0.2), 1..8), 0u8..3, proptest::option::weighted(0.5, (0u8..=3, 0u8..4)), any::<bool>(), any::<bool>(), proptest::bool::weighted(0.2))
-        .prop_map(|(priorities, on_thread, extra_sq, pool, wake_after, inline_on_flush, refuse_unregister)| Teardown { priorities, on_thread, extra_sq, pool, wake_after, inline_on_flush, refuse_unregister })
+    (proptest::collection::vec(any::<u16>(), 1..24), proptest::collection::vec(proptest::bool::weighted(0.2), 1..8), 0u8..3, proptest::option::weighted(0.5, (0u8..=3, 0u8..4)), any::<bool>(), any::<bool>(), proptest::bool::weighted(0.2), proptest::bool::weighted(0.4))
+        .prop_map(|(priorities, on_thread, extra_sq, pool, wake_after, inline_on_flush, refuse_unregister, poll_after_ring)| Teardown { priorities, on_thread, extra_sq, pool, wake_after, inline_on_flush, refuse_unregister, poll_after_ring })
 }
 
 /// A PCT schedule: initial priority order and up to `max_changes` change
